@@ -118,13 +118,16 @@ def main(tier):
     totals = {'queries': 0, 'paths': 0}
     for producer in sorted(set(pub) | set(priv)):
         check_producer(mod, res, tier, producer, producer in pub, totals)
+    # string literals: the writer of every string of the generated code emits a well-formed literal for every string (shared with C12)
+    from checks import c12
+    totals['queries'] += c12.run_m12a(res, mod, tier)
     res.bounds = {'id': '[0, 2^24)  (public identifiers start at 26; > 16M declarations, property names >= 200k)',
                   'loop_unwinding': 8, 'unwinding_assertion': True}
     res.assumptions = ['String::new / String::push modelled as a char sequence (contract table)',
                        'machine integers as mathematical integers with the overflow-checks=on asserts as obligations',
                        'const tables VAR_NAME_CHARS / VAR_NAME_START_CHARS read from the MIR dump of the current tree',
                        'identifier sources = constructions of JsIdent in the MIR of the crate (def-use scan, M02b)']
-    res.outside = ['validity of whole artefacts for arbitrary templates', 'gen_lit_str (core Debug for str; see C12)',
+    res.outside = ['validity of whole artefacts for arbitrary templates',
                    'inline script bodies', 'ids >= 2^24']
     res.coverage.update({
         'explanation': 'engine M: every function that produces the name of a JsIdent (MIR def-use scan) is executed symbolically; '
